@@ -29,26 +29,8 @@ func ruleMemoKey(c *Ctx) {
 				if !ok {
 					continue
 				}
-				// the memoised call
-				var call *ssa.Call
-				switch v := stripConv(mu.Value).(type) {
-				case *ssa.Call:
-					call = v
-				case *ssa.Extract:
-					call, _ = v.Tuple.(*ssa.Call)
-				}
-				if call == nil {
-					continue
-				}
-				callee := call.Call.StaticCallee()
-				if callee == nil || !inModule(callee) || callee.Blocks == nil || len(call.Call.Args) == 0 {
-					continue
-				}
-				// a comma-ok lookup of the same map under the same key expression
-				keyRootPaths := accessPathsOf(mu.Key)
-				if len(keyRootPaths) == 0 {
-					continue
-				}
+				// the memo idiom: a comma-ok lookup of the same map under the same key
+				direct := accessPathsOf(mu.Key)
 				hasLookup := false
 				for _, b2 := range f.Blocks {
 					for _, in2 := range b2.Instrs {
@@ -56,7 +38,7 @@ func ruleMemoKey(c *Ctx) {
 						if !ok || !lk.CommaOk || !sameMapValue(lk.X, mu.Map) {
 							continue
 						}
-						if samePaths(accessPathsOf(lk.Index), keyRootPaths) {
+						if lk.Index == mu.Key || samePaths(accessPathsOf(lk.Index), direct) {
 							hasLookup = true
 						}
 					}
@@ -64,44 +46,128 @@ func ruleMemoKey(c *Ctx) {
 				if !hasLookup {
 					continue
 				}
-				// for each argument of the call that the key is built from: what the callee needs of it
-				for ai, arg := range call.Call.Args {
-					if ai >= len(callee.Params) {
-						break
-					}
-					root := stripConv(arg)
-					var keyPaths [][]int
-					for _, rp := range keyRootPaths {
-						if rp.root == root {
-							keyPaths = append(keyPaths, rp.path)
-						}
-					}
-					if len(keyPaths) == 0 {
+				// what the key covers, per root value: field paths it is built from, and whatever a key function reads
+				cover := map[ssa.Value][][]int{}
+				for _, rp := range direct {
+					cover[rp.root] = append(cover[rp.root], rp.path)
+				}
+				for v := range backSlice(mu.Key) {
+					call, ok := v.(*ssa.Call)
+					if !ok {
 						continue
 					}
-					n++
-					needed := neededPaths(callee, callee.Params[ai])
-					var missing []string
-					for _, np := range needed {
+					cal := call.Call.StaticCallee()
+					if cal == nil || !inModule(cal) || cal.Blocks == nil {
+						continue
+					}
+					for ai, a := range call.Call.Args {
+						if ai >= len(cal.Params) {
+							break
+						}
+						root, sub := rootAndPath(a)
+						if root == nil {
+							continue
+						}
+						for _, np := range neededPaths(cal, cal.Params[ai], true) {
+							cover[root] = append(cover[root], append(append([]int(nil), sub...), np...))
+						}
+					}
+				}
+				if len(cover) == 0 {
+					continue
+				}
+				// what the memoised value needs, per root value
+				type need struct {
+					path   []int
+					callee *ssa.Function
+					param  *ssa.Parameter
+				}
+				needs := map[ssa.Value][]need{}
+				for v := range backSlice(mu.Value) {
+					call, ok := v.(*ssa.Call)
+					if !ok {
+						continue
+					}
+					cal := call.Call.StaticCallee()
+					if cal == nil || !inModule(cal) || cal.Blocks == nil {
+						continue
+					}
+					for ai, a := range call.Call.Args {
+						if ai >= len(cal.Params) {
+							break
+						}
+						root, sub := rootAndPath(a)
+						if root == nil || len(cover[root]) == 0 {
+							continue
+						}
+						for _, np := range neededPaths(cal, cal.Params[ai], false) {
+							needs[root] = append(needs[root], need{append(append([]int(nil), sub...), np...), cal, cal.Params[ai]})
+						}
+					}
+				}
+				if len(needs) == 0 {
+					continue
+				}
+				n++
+				var missing []string
+				var firstKey string
+				for root, ns := range needs {
+					for _, nd := range ns {
 						covered := false
-						for _, kp := range keyPaths {
-							if isPrefix(kp, np) {
+						for _, kp := range cover[root] {
+							if isPrefix(kp, nd.path) {
 								covered = true
 							}
 						}
 						if !covered {
-							missing = append(missing, pathString(callee.Params[ai].Type(), np))
+							missing = append(missing, nd.callee.Name()+" reads "+pathString(root.Type(), nd.path))
 						}
 					}
-					sort.Strings(missing)
-					c.check(len(missing) == 0, "M-KEY", funcName(f), "memo of "+callee.Name()+" is keyed by all it reads", mu.Pos(),
-						"every part of the argument the memoised function reads lies below the key",
-						fmt.Sprintf("results of %s are memoised under a key built from %s of its argument, but the function also reads %s: two arguments that agree on the key and differ there get the value computed for the first one", callee.Name(), pathString(callee.Params[ai].Type(), keyPaths[0]), strings.Join(missing, ", ")))
+					if firstKey == "" && len(cover[root]) > 0 {
+						firstKey = pathString(root.Type(), cover[root][0])
+					}
 				}
+				sort.Strings(missing)
+				missing = uniqStrings(missing)
+				if len(missing) > 6 {
+					missing = append(missing[:6], "...")
+				}
+				c.check(len(missing) == 0, "M-KEY", funcName(f), "memo is keyed by all that the memoised computation reads", mu.Pos(),
+					"every part of the argument the memoised computation reads lies below what the key is built from",
+					fmt.Sprintf("a result is memoised under a key built from %s (and what the key function reads), but the computation also depends on parts the key does not cover (%s): two arguments that agree on the key and differ there get the value computed for the first one", firstKey, strings.Join(missing, "; ")))
 			}
 		}
 	}
-	c.note("M-KEY: %d memo idioms keyed by a part of the memoised function's argument", n)
+	c.note("M-KEY: %d memo idioms keyed by a part of the memoised computation's argument", n)
+}
+
+// rootAndPath: the value a chain of field selections starts from, and the chain (nil, nil for values that are not
+// rooted anywhere useful).  A plain value is its own root with an empty path.
+func rootAndPath(a ssa.Value) (ssa.Value, []int) {
+	a = stripConv(a)
+	if root, path, ok := fieldChain(a); ok {
+		return root, path
+	}
+	if fa, ok := a.(*ssa.FieldAddr); ok {
+		if root, path, ok := fieldChain(fa); ok {
+			return root, path
+		}
+	}
+	switch a.(type) {
+	case *ssa.Parameter, *ssa.Alloc, *ssa.IndexAddr, *ssa.Phi, *ssa.UnOp:
+		return a, nil
+	}
+	return nil, nil
+}
+
+func uniqStrings(in []string) []string {
+	var out []string
+	for i, s := range in {
+		if i == 0 || s != in[i-1] {
+			out = append(out, s)
+		}
+	}
+	return out
 }
 
 type rootedPath struct {
@@ -208,7 +274,7 @@ func isPrefix(k, n []int) bool {
 
 // neededPaths: the field paths of parameter p that the results of fn depend on.  Field selections inside callees
 // that fn hands p (or a part of it) to are translated back through the call's argument.
-func neededPaths(fn *ssa.Function, p *ssa.Parameter) [][]int {
+func neededPaths(fn *ssa.Function, p *ssa.Parameter, all bool) [][]int {
 	seen := map[string]bool{}
 	var out [][]int
 	add := func(path []int) {
@@ -227,6 +293,16 @@ func neededPaths(fn *ssa.Function, p *ssa.Parameter) [][]int {
 		// values of fn that matter for its results: slice of every returned value and of every condition (a
 		// condition decides which value is returned)
 		rel := map[ssa.Value]bool{}
+		if all {
+			// everything the function reads (a key function: whatever it looks at is part of the key)
+			for _, b := range fn.Blocks {
+				for _, ins := range b.Instrs {
+					if v, ok := ins.(ssa.Value); ok {
+						rel[v] = true
+					}
+				}
+			}
+		}
 		for _, b := range fn.Blocks {
 			switch t := lastInstr(b).(type) {
 			case *ssa.Return:
